@@ -63,6 +63,22 @@ func (s *Session) verifyFunc(fn *ssa.Function, c *Contract) (vc *FnVC, err error
 		}
 		args = append(args, t)
 	}
+	distinctMutexes := func(typ types.Type, ref Term) {
+		if pt := derefType(typ); pt != nil && s.te.isStructVal(pt) {
+			stt := pt.Underlying().(*types.Struct)
+			var ptrs []string
+			for k := 0; k < stt.NumFields(); k++ {
+				if mt := derefType(stt.Field(k).Type()); mt != nil {
+					if n, ok := types.Unalias(mt).(*types.Named); ok && (qualName(n) == "sync.Mutex" || qualName(n) == "sync.RWMutex") {
+						ptrs = append(ptrs, s.te.Load(st, s.te.FieldLoc(pt, k, ref)).S)
+					}
+				}
+			}
+			if len(ptrs) > 1 {
+				vc.assume(Term{"(distinct " + strings.Join(ptrs, " ") + ")", SBool})
+			}
+		}
+	}
 	for i, p := range fn.Params {
 		// distinct mutex-pointer fields of a parameter's struct hold distinct mutexes (listed assumption)
 		if pt := derefType(p.Type()); pt != nil && s.te.isStructVal(pt) {
@@ -100,6 +116,17 @@ func (s *Session) verifyFunc(fn *ssa.Function, c *Contract) (vc *FnVC, err error
 			// the cell of a variable captured by reference is known only to the enclosing function and this closure:
 			// unknown callees cannot change it
 			fr.unescaped[t.S] = true
+		}
+	}
+	for _, fv := range fn.FreeVars {
+		// the same for a struct pointer captured by value
+		if t, ok := fr.vals[fv]; ok {
+			if !fvIsAddr(fv) {
+				distinctMutexes(fv.Type(), t)
+			} else if et := derefType(fv.Type()); et != nil && derefType(et) != nil {
+				// captured by reference: the variable's current value
+				distinctMutexes(et, s.te.Load(st, fr.addr(fv)))
+			}
 		}
 	}
 	// requires
